@@ -17,7 +17,7 @@ func init() {
 	register(&Check{
 		ID:    "C15",
 		Level: "exploration",
-		Rule: "deviation-bounded layout exploration: every corpus/generated program is tokenised by an independent tokenizer and re-laid-out in a minimal base layout (blank only between adjacent words); then EVERY gap between tokens (plus before the first and after the last token) x 11 fillers {blank, newline, CR LF, form feed + vertical tab, tab run, line comment, block comment, blank-wrapped block comment, empty line comment, block comment ending in ')-', multi-line block comment} with 1 deviation, every pair of gaps x filler pairs with 2 deviations on programs of <= 12 tokens, and every keyword in UPPER and Title case; " +
+		Rule: "deviation-bounded layout exploration: every corpus/generated program is tokenised by an independent tokenizer and re-laid-out in a minimal base layout (blank only between adjacent words); then EVERY gap between tokens (plus before the first and after the last token) x 12 fillers {blank, newline, CR LF, form feed + vertical tab, tab run, line comment, block comment, blank-wrapped block comment, empty line comment, block comment ending in ')-', multi-line block comment, block comment with parenthesised remarks followed by blanks} with 1 deviation, every pair of gaps x filler pairs with 2 deviations on programs of <= 12 tokens, and every keyword in UPPER and Title case; " +
 			"oracle: accepted iff the original is, parse trees reflect.DeepEqual, Run results equal on 3 probe texts; non-trivial = distinct variants of programs the original Compile accepts",
 		Assume: []string{"tokenizer vmc/corpus.go:vtokens is independent of the lexer under test", "ast nodes carry no source positions (DeepEqual compares structure)"},
 		Budget: map[string]int{"quick": 150, "thorough": 1200},
@@ -70,7 +70,7 @@ func baseSeps(ts []string) []string {
 	return sep
 }
 
-var c15Fillers = []string{" ", "\n", "\t\t", "-- c\n", "--(c)--", " --(c)-- ", "--\n", "--( x )-)--", "--(\n-- )--", "\r\n", "\f\v"}
+var c15Fillers = []string{" ", "\n", "\t\t", "-- c\n", "--(c)--", " --(c)-- ", "--\n", "--( x )-)--", "--(\n-- )--", "\r\n", "\f\v", "--( f(x) g(y) (1)\t)--"}
 
 var c15Probes = []string{"aab ab 12 abc\nAb, b_1 <div>x</div>\n", "a,b\n1,22\n\n x@y.com 3.5e-2 51 6", "abba dab aabbd  aaa\n"}
 
@@ -277,7 +277,7 @@ func runC15(c *Ctx) {
 					if w < 1 {
 						continue
 					}
-					for fi, f := range []string{strings.Repeat(" ", w), "--(" + strings.Repeat("c", w) + ")--", strings.Repeat("\n", w)} {
+					for fi, f := range []string{strings.Repeat(" ", w), "--(" + strings.Repeat("c", w) + ")--", strings.Repeat("\n", w), "-- " + strings.Repeat("c", w) + "\n", "--(" + strings.Repeat("(c) ", w/4) + ")--"} {
 						s2 := append([]string{}, sep...)
 						s2[g] = f
 						c15Compare(c, base, layout(ts, s2), fmt.Sprintf("longgap/filler%d@%d", fi, g))
